@@ -101,6 +101,10 @@ namespace BitSerializer
 			KeyValueProxy::SplitAndSerialize(archive, std::forward<T>(object));
 			archive.Finalize();
 			context.OnFinishSerialization();
+			// A failed write leaves the stream in the fail state, report it instead of returning a partial document
+			if (output.fail()) {
+				throw SerializationException(SerializationErrorCode::InputOutputError, "Failed to write to the output stream");
+			}
 		}
 	}
 
